@@ -68,6 +68,9 @@ func runC10(c *Ctx) error {
 				}
 			}
 		}
+		if i%6 >= 4 && !hasFlag(extra, "-zip") {
+			extra = append(extra, "-zip") // the compressed tables are a second writer of column numbers
+		}
 		switch i % 3 {
 		case 0:
 			o := gram.DefaultLexGenOpts()
@@ -190,7 +193,11 @@ func runC10Jobs(c *Ctx, jobs []*c10Job) error {
 				if src == nil {
 					continue
 				}
-				refs = append(refs, ref{j: j, kind: "pair", toks: names, a: len(cases), b: len(cases) + 1})
+				ids := make([]int, len(names))
+				for q, nm := range names {
+					ids[q], _ = j.cfg.TermID(nm)
+				}
+				refs = append(refs, ref{j: j, kind: "pair", toks: names, a: len(cases), b: len(cases) + 1, ids: ids})
 				cases = append(cases, &DCase{G: j.Name, Op: "parse", Feed: &DFeed{Toks: names, Fail: -1}},
 					&DCase{G: j.Name, Op: "parse", Feed: &DFeed{Src: src, UseSrc: true, Fail: -1}})
 			}
@@ -270,6 +277,14 @@ func runC10Jobs(c *Ctx, jobs []*c10Job) error {
 				w.Expected = a
 				w.Observed = b
 				w.Note = "the same sentence fed by token name and through the generated lexer is parsed differently (lexer and parser disagree on token numbers?)"
+				c.Violation(w)
+			} else if m := j.lr.Parse(rf.ids, model.ParseOpts{FailAt: -1}); !m.StepsExceeded && (m.Accepted != (a.End == "ret") || m.Accepted && m.Log != fullLog(a)) {
+				// both feeds agree with each other but not with the grammar: the parser's table
+				// columns are not the numbers of the token package
+				w.Toks = rf.toks
+				w.Expected = map[string]interface{}{"accepted": m.Accepted, "log": m.Log}
+				w.Observed = a
+				w.Note = "a sentence of the grammar, fed with the numbers the token package assigns, is not parsed as the grammar says (the parser's columns are not those numbers?)"
 				c.Violation(w)
 			}
 		}
